@@ -104,7 +104,7 @@ usage:
 			}
 			table.S3Options.EntriesPerNode = int(i)
 		case "node_cache_entries":
-			i, err := strconv.ParseInt(s[1], 32, 0)
+			i, err := strconv.ParseInt(s[1], 0, 32)
 			if err != nil {
 				return nil, fmt.Errorf("arg: %w", err)
 			}
